@@ -418,6 +418,47 @@ def S_column_object(Q, n):
     return Q.create_table("t").columns(r["Column"](n, "INT", nullable=False, default=1))
 
 
+# a schema-qualified (or aliased) Table object as the target of every statement kind
+def S_load_schema(Q, n):
+    return Q.load("/f.csv").into(_r()["Table"]("t", schema=n))
+
+
+def S_load_database_chain(Q, n):
+    return Q.load("/f.csv").into(getattr(getattr(_r()["Database"](n), "sch"), "tbl"))
+
+
+def S_load_aliased_table(Q, n):
+    return Q.load("/f.csv").into(_r()["Table"](n).as_("al"))
+
+
+def S_insert_schema(Q, n):
+    return Q.into(_r()["Table"]("t", schema=n)).insert(1)
+
+
+def S_update_schema(Q, n):
+    t = _r()["Table"]("t", schema=n)
+    return Q.update(t).set("a", 1)
+
+
+def S_delete_schema(Q, n):
+    t = _r()["Table"]("t", schema=["srv", n])
+    return Q.from_(t).delete().where(t.a == 1)
+
+
+def S_create_schema(Q, n):
+    return Q.create_table(_r()["Table"]("t", schema=n)).columns(_r()["Column"]("a", "INT"))
+
+
+def S_drop_schema(Q, n):
+    return Q.drop_table(_r()["Table"]("t", schema=n))
+
+
+def S_join_schema(Q, n):
+    r = _r()
+    t, u = r["Table"]("t"), r["Table"]("u", schema=n)
+    return Q.from_(t).join(u).on(t.id == u.id).select(t.a)
+
+
 # statements started from the shortcuts of a table bound to the dialect class (Q.Table / Q.Tables / Table(query_cls=Q))
 def S_shortcut_select(Q, n):
     t = Q.Table(n)
@@ -454,9 +495,11 @@ EXPECT_IDENTS = {
     "create-case-twins": lambda n: ["t", n, n.swapcase(), "b", n.swapcase(), "b", n],
     "create-case-twins-reverse": lambda n: ["t", n.swapcase(), n, n, n.swapcase()],
     "create-columns": lambda n: ["t", n, "b", n, n],
+    "load-schema": lambda n: [n, "t"], "load-database-chain": lambda n: [n, "sch", "tbl"],
+    "insert-schema": lambda n: [n, "t"], "drop-schema": lambda n: [n, "t"], "create-schema": lambda n: [n, "t", "a"],
 }
 ONLY = {"returning": {"PostgreSQLQuery"}, "distinct-on": {"PostgreSQLQuery"}, "mysql-upsert-alias": {"MySQLQuery"},
-        "load": {"MySQLQuery"}}
+        "load": {"MySQLQuery"}, "load-schema": {"MySQLQuery"}, "load-database-chain": {"MySQLQuery"}, "load-aliased-table": {"MySQLQuery"}}
 # sites whose SQLite statement can be prepared against a schema built from the name: site -> (ddl using {n})
 SQLITE_SCHEMA = {
     "from": 'CREATE TABLE {n}(a)', "from-str": 'CREATE TABLE {n}(a)', "join": 'CREATE TABLE t(a,id); CREATE TABLE {n}(id)',
